@@ -128,7 +128,8 @@ def hilbert_augment(X, padding="exp", decay=0.2):
         Z = analytic_signal(pad_exp(X, decay))[n : 2 * n]
     else:
         Z = analytic_signal(X)
-    return Z - Z.mean(axis=0)
+    # only the padding-induced shift of the imaginary part is removed; the real part is the input data
+    return Z - 1j * Z.imag.mean(axis=0)
 
 
 # ---------------------------------------------------------------- delay embedding
